@@ -119,6 +119,7 @@ func init() {
 			return
 		}
 		r.Check(ov.params["outputFile"] == "outputFile", "R10.1", "internal/cmd.buildRunner#param:outputFile", "the outputFile parameter is the -o flag's payload field")
+		r.Check(ov.params["inputPatterns"] == "inputPatterns", "R10.9", "internal/cmd.buildRunner#param:inputPatterns", "the read step receives the -i patterns exactly as given (same elements, order and repetitions): the double-match rule depends on seeing every pattern")
 		// the flag
 		if fd, pk := e.P.Decl("internal/cmd", "NewBuildCmd"); fd != nil {
 			okFlag := false
@@ -174,5 +175,43 @@ func init() {
 				r.Check(depIs(a, "service", "printer"), "R10.7", fmt.Sprintf("%s#decorator[%d]#printer-arg", selfRel, i), "the verbose decorator prints through the shared `printer` service")
 			}
 		}
+	}
+}
+
+// patternsPassThrough: shared with C09 — the inputPatterns parameter is the payload field itself.
+func patternsPassThrough(e *Env, rule string) {
+	ov := buildRunnerOverrides(e)
+	if ov == nil {
+		e.R.Undecide(rule, "internal/cmd.buildRunner", "anchor not found")
+		return
+	}
+	e.R.Check(ov.params["inputPatterns"] == "inputPatterns", rule, "internal/cmd.buildRunner#param:inputPatterns", "the read step receives the -i patterns exactly as given (same elements, order and repetitions)")
+}
+
+// compileStepsUseFullChain: the service and the decorator compile steps both receive the full argument
+// chain (role argResolver) — an argument form that works for services works for decorators.
+func compileStepsUseFullChain(e *Env, rule string) {
+	gm, _, ok := e.models()
+	if !ok {
+		return
+	}
+	for _, st := range []struct{ role, ctor string }{{"stepCompileServices", "NewStepCompileServices"}, {"stepCompileDecorators", "NewStepCompileDecorators"}} {
+		s := gm.Service(st.role)
+		okS := ctorIs(e, s, compilerRel, st.ctor)
+		n := 0
+		if okS {
+			for _, a := range s.Args {
+				if a.Kind != "service" {
+					continue
+				}
+				if dep := gm.Service(a.Name); ctorIs(e, dep, resolverRel, "NewArgResolver") {
+					n++
+					if !depIs(a, "service", "argResolver") {
+						okS = false
+					}
+				}
+			}
+		}
+		e.R.Check(okS && n == 1, rule, selfRel+"#service:"+st.role+"#arg-resolver", fmt.Sprintf("%s compiles arguments with the full argument chain @argResolver (chains injected: %d)", st.role, n))
 	}
 }
